@@ -49,7 +49,7 @@ def run(ctx):
 def extra_lines(ctx):
     """CEA / DWA / stream half: recorded by other drivers when they exist."""
     out = []
-    for name in ("smanswer",):
+    for name in ("smanswer", "sctpanswer"):
         try:
             d = ctx.scratch.sub("h-" + name)
             tpath = os.path.join(d, "trace.ndjson")
